@@ -80,6 +80,7 @@ type cfg struct {
 	Preempt    int
 	CON        bool // notifications are confirmable
 	DeregFails bool // the peer never answers the deregistration request: Cancel ends with its (virtual) deadline
+	ETag       bool // every registration answer and notification carries the same ETag (a re-confirmed, unchanged representation)
 	TCP        bool // the same notification streams on a real tcp/client.Conn (Session.Run read loop over an in-memory stream)
 	Conc       bool // every received message is processed in its own thread (exported ProcessReceivedMessage option); notifications injected back to back
 }
@@ -91,6 +92,9 @@ func (c cfg) String() string {
 	}
 	if c.TCP {
 		d += " transport=tcp"
+	}
+	if c.ETag {
+		d += " same-etag"
 	}
 	return fmt.Sprintf("observe reg=%s depth=%d two=%v con-notifications=%v concurrent-processing=%v preempt<=%d%s", c.Reg, c.Depth, c.Two, c.CON, c.Conc, c.Preempt, d)
 }
@@ -267,6 +271,9 @@ func scenario(c cfg) *mcx.Scenario {
 						bo := make([]byte, 4)
 						m.Options, _, _ = message.Options{}.SetUint32(bo, message.Observe, v)
 					}
+					if c.ETag {
+						m.Options = append(message.Options{{ID: message.ETag, Value: []byte{0xE7}}}, m.Options...)
+					}
 					return m
 				}
 				regAnswered := make([]bool, nobs)
@@ -316,6 +323,10 @@ func scenario(c cfg) *mcx.Scenario {
 								_ = w.inject(ackOrNon(codes.Content, false, 0, true))
 							case "404":
 								_ = w.inject(ackOrNon(codes.NotFound, false, 0, true))
+							case "204obs":
+								_ = w.inject(ackOrNon(codes.Changed, true, 1, true))
+							case "201obs":
+								_ = w.inject(ackOrNon(codes.Created, true, 1, true))
 							case "none":
 								if o.M.Type == message.Confirmable {
 									_ = w.inject(message.Message{Type: message.Acknowledgement, Code: codes.Empty, MessageID: o.M.MessageID})
@@ -473,12 +484,13 @@ func main() {
 	}
 	scs = append(scs, scenario(cfg{Reg: "205obs", Depth: d}))
 	scs = append(scs, scenario(cfg{Reg: "205obs", Depth: d - 1, CON: true}))
-	for _, reg := range []string{"203obs", "205", "404", "none"} {
+	for _, reg := range []string{"203obs", "205", "404", "none", "204obs", "201obs"} {
 		scs = append(scs, scenario(cfg{Reg: reg, Depth: 2}))
 	}
 	scs = append(scs, scenario(cfg{Reg: "205obs", Depth: ev.Pick(r, 2, 3), Two: true}))
 	scs = append(scs, scenario(cfg{Reg: "205obs", Depth: ev.Pick(r, 2, 3), DeregFails: true}))
 	scs = append(scs, scenario(cfg{Reg: "205obs", Depth: 2, DeregFails: true, CON: true}))
+	scs = append(scs, scenario(cfg{Reg: "205obs", Depth: ev.Pick(r, 3, 4), ETag: true}))
 	// the same streams over a tcp connection (same observation handler, other conn code)
 	scs = append(scs, scenario(cfg{Reg: "205obs", Depth: ev.Pick(r, 2, 3), TCP: true}))
 	scs = append(scs, scenario(cfg{Reg: "205obs", Depth: 2, Two: true, TCP: true}))
